@@ -1,4 +1,5 @@
 #include "dec.h"
+#include <unistd.h>
 #include <algorithm>
 #include <sstream>
 
@@ -160,8 +161,21 @@ config_t *make_config(const std::string &tmpl)
         config_set_str(c, "dict", L.dict_path.c_str());
     if (tmpl == "enc" || tmpl == "frc")
         config_set_bool(c, "compallsen", 1);
-    if (tmpl == "env")
+    if (tmpl == "env") {
+        // variance normalisation: the model's feat_params.json would switch it off again (it overrides the user's
+        // values), so the decoder gets a parameter file of its own, equal to the model's except for varnorm
+        std::string fp = verif_root() + "/build/feat_params_varnorm.json";
+        std::string tmp = fp + "." + std::to_string((long)getpid());
+        FILE *f = fopen(tmp.c_str(), "w");
+        if (f) {
+            fputs("{\n\"lowerf\": 130,\n\"upperf\": 3700,\n\"nfilt\": 20,\n\"transform\": \"dct\",\n\"lifter\": 22,\n\"feat\": \"1s_c_d_dd\",\n"
+                  "\"svspec\": \"0-12/13-25/26-38\",\n\"cmn\": \"current\",\n\"varnorm\": true,\n\"remove_noise\": true\n}\n", f);
+            fclose(f);
+            rename(tmp.c_str(), fp.c_str()); // atomic: sixteen workers build their templates at the same time
+        }
+        config_set_str(c, "featparams", fp.c_str());
         config_set_bool(c, "varnorm", 1);
+    }
     if (tmpl == "enx") { // rarely used scoring options: Gaussian selection every second frame, two codewords per feature
         config_set_int(c, "ds", 2);
         config_set_int(c, "topn", 2);
